@@ -279,7 +279,7 @@ type vgWorld struct {
 	// snapshots the harness added to the current head round of each chain
 	head [][]*common.Snapshot
 	refs map[crypto.Hash]vgRef
-	tick uint64
+	late bool // the clock has jumped six hours ahead (era 1)
 	seq  int
 }
 
@@ -406,9 +406,38 @@ func (w *vgWorld) close() {
 
 func (w *vgWorld) chain(c int) *Chain { return w.node.getOrCreateChain(w.ids[c-1]) }
 
-func (w *vgWorld) now() uint64 {
-	w.tick++
-	return uint64(vgEpoch)*1000000000 + w.tick*10*1000000000
+// Time (spec/Rounds/Rounds.tla part 2): era 1 is six hours after era 0; the snapshot of round n of a
+// chain is stamped era base + n*10 s; "now" (the round time of a transition) is era base + 600 s.
+const (
+	vgEraJump = uint64(6 * 3600 * 1000000000)
+	vgTick    = uint64(10 * 1000000000)
+)
+
+func (w *vgWorld) eraBase() uint64 {
+	b := uint64(vgEpoch) * 1000000000
+	if w.late {
+		b += vgEraJump
+	}
+	return b
+}
+
+func (w *vgWorld) now() uint64 { return w.eraBase() + 60*vgTick }
+
+func vgEraOf(ts uint64) int {
+	if ts >= uint64(vgEpoch)*1000000000+vgEraJump/2 {
+		return 1
+	}
+	return 0
+}
+
+// the chains in the order of Node.NodesListWithoutState (same timestamp: by identifier string)
+func (w *vgWorld) order() []int {
+	idx := make([]int, len(w.ids))
+	for i := range idx {
+		idx[i] = i + 1
+	}
+	sort.Slice(idx, func(a, b int) bool { return w.ids[idx[a]-1].String() < w.ids[idx[b]-1].String() })
+	return idx
 }
 
 func (w *vgWorld) fab(what string) crypto.Hash {
@@ -472,7 +501,7 @@ func (w *vgWorld) addSnapshot(c int) error {
 		return err
 	}
 	s := &common.Snapshot{Version: common.SnapshotVersionCommonEncoding, NodeId: chain.ChainId,
-		RoundNumber: cache.Number, References: cache.References.Copy(), Timestamp: w.now(),
+		RoundNumber: cache.Number, References: cache.References.Copy(), Timestamp: w.eraBase() + cache.Number*vgTick,
 		Signature: &crypto.CosiSignature{Mask: 0x1f}}
 	s.AddTransaction(ver.PayloadHash())
 	s.Hash = s.PayloadHash()
@@ -489,6 +518,7 @@ func (w *vgWorld) obs() vM {
 	self, mself, ext, mext, mfinal := make([]vgRef, n), make([]vgRef, n), make([]vgRef, n), make([]vgRef, n), make([]vgRef, n)
 	has, finrec := make([]bool, n), make([]bool, n)
 	dl, ml := make([][]uint64, n), make([][]uint64, n)
+	era, hera := make([][]int, n), make([]int, n)
 	for i, id := range w.ids {
 		r, err := w.store.ReadRound(id)
 		if err != nil || r == nil {
@@ -502,6 +532,18 @@ func (w *vgWorld) obs() vM {
 		fnum[i] = st.FinalRound.Number
 		mfinal[i] = w.refOf(st.FinalRound.Hash)
 		has[i] = len(st.CacheRound.Snapshots) > 0
+		if has[i] {
+			hera[i] = vgEraOf(st.CacheRound.Snapshots[0].Timestamp)
+		}
+		// start of every final round of the chain, from its durable record
+		for k, fh := range w.finals[i] {
+			rec, err := w.store.ReadRound(fh)
+			if err != nil || rec == nil || rec.Number != uint64(k) {
+				era[i] = append(era[i], -1)
+				continue
+			}
+			era[i] = append(era[i], vgEraOf(rec.Timestamp))
+		}
 		// the durable record of the last closed round
 		fr, err := w.store.ReadRound(r.References.Self)
 		finrec[i] = err == nil && fr != nil && fr.NodeId == id && fr.Number+1 == r.Number && fr.Hash == r.References.Self
@@ -516,7 +558,8 @@ func (w *vgWorld) obs() vM {
 		}
 	}
 	return vM{"num": num, "mnum": mnum, "fnum": fnum, "self": self, "mself": mself, "mfinal": mfinal,
-		"ext": ext, "mext": mext, "has": has, "finrec": finrec, "dl": dl, "ml": ml}
+		"ext": ext, "mext": mext, "has": has, "finrec": finrec, "dl": dl, "ml": ml,
+		"era": era, "hera": hera, "late": w.late, "order": w.order()}
 }
 
 func (w *vgWorld) step(op vgOp) vM {
@@ -528,6 +571,9 @@ func (w *vgWorld) step(op vgOp) vM {
 	dummy := false
 	var res string
 	switch op.Op {
+	case "Jump":
+		w.late = true
+		res = "ok"
 	case "Add":
 		res, _ = vCall(func() error { return w.addSnapshot(op.C) })
 	case "Start":
